@@ -95,6 +95,7 @@ type Contracts struct {
 	Ghosts    map[string]*GhostDef
 	Axioms    []*AxiomDef
 	FuncTypes map[string]*ParamContract
+	Lemmas    map[string]*PureDef
 	NAssume   int
 	Files     []string
 }
@@ -105,6 +106,7 @@ func newContracts() *Contracts {
 		Pures:     map[string]*PureDef{},
 		Ghosts:    map[string]*GhostDef{},
 		FuncTypes: map[string]*ParamContract{},
+		Lemmas:    map[string]*PureDef{},
 	}
 }
 
@@ -535,7 +537,20 @@ func (cs *Contracts) loadFile(path, pkgPath string) error {
 			gd.NArgs = len(gd.ArgType)
 			cs.Ghosts[gd.Name] = gd
 			cur, curLoop, curParam = nil, nil, nil
-		case "axiom", "lemma":
+		case "lemma":
+			m := rePureHdr.FindStringSubmatch(l.rest)
+			if m == nil || m[4] == "" {
+				return fmt.Errorf("%s: lemma syntax: lemma name(params) = expr", l.where)
+			}
+			c, err := mkClause(m[4], l.where)
+			if err != nil {
+				return err
+			}
+			pd := &PureDef{Name: m[1], Pkg: pkgPath, ParamsTxt: m[2], Body: c, Line: l.where}
+			pd.ParamName, pd.ParamType = splitParams(m[2])
+			cs.Lemmas[pd.Name] = pd
+			cur, curLoop, curParam = nil, nil, nil
+		case "axiom":
 			j := strings.Index(l.rest, ":")
 			if j < 0 {
 				return fmt.Errorf("%s: axiom needs name:", l.where)
